@@ -5,6 +5,7 @@ CONSTANTS Types = {"i3","sii"}
  MaxUnk = 3
  MaxTC = 1
  Ranges = TRUE
+ ValClasses = {"k"}
  Emit = TRUE
  Broken = FALSE
 INVARIANTS TypeOK CursorInObject DesignatedExists LastWins OneUnionMember BoundDetermined Bounded Complete
